@@ -105,6 +105,7 @@ type Project struct {
 	YearlyCols   string `json:"-"`                 // yaml text of yearlyout_conf.yml ("" = minimal)
 	CropCols     string `json:"-"`                 // yaml text of cropout_conf.yml ("" = minimal)
 	Files        map[string]string `json:"-"`      // extra/override files relative to the project dir
+	SoilCSVOrder int               `json:"soil_csv_order,omitempty"` // column order of the CSV soil file (see SoilCSV)
 }
 
 type GWPoint struct {
@@ -263,10 +264,10 @@ func fnum(v int) string {
 	return fmt.Sprintf("%02d", v)
 }
 
-// SoilCSV renders the soil as CSV rows.
+// SoilCSV renders the soil as CSV rows. SoilCSVOrder: 0 = the usual column order, 1 = columns reversed, 2 = rotated by 7
+// (the reader finds its columns by name).
 func (p *Project) SoilCSV() string {
-	var b strings.Builder
-	b.WriteString("SID,C_org,Texture,LayerDepth,BulkDensityClass,Stone,C/N,C/S,RootDepth,NumberHorizon,FieldCapacity,WiltingPoint,PoreVolume,Sand,Silt,Clay,DrainageDepth,Drainage%,GroundWaterLevel")
+	head := strings.Split("SID,C_org,Texture,LayerDepth,BulkDensityClass,Stone,C/N,C/S,RootDepth,NumberHorizon,FieldCapacity,WiltingPoint,PoreVolume,Sand,Silt,Clay,DrainageDepth,Drainage%,GroundWaterLevel", ",")
 	hasBulk := false
 	for _, h := range p.Soil.Hor {
 		if h.BulkDensity > 0 {
@@ -274,25 +275,45 @@ func (p *Project) SoilCSV() string {
 		}
 	}
 	if hasBulk {
-		b.WriteString(",BulkDensity")
+		head = append(head, "BulkDensity")
 	}
-	b.WriteString("\n")
+	rows := [][]string{head}
 	for i, h := range p.Soil.Hor {
 		root, nh, gw := "", "", ""
 		dd, df := fmt.Sprintf("%02d", p.Soil.DrainDepth), fmt.Sprintf("%g", p.Soil.DrainFrac)
 		if i == 0 {
 			root, nh, gw = fmt.Sprintf("%02d", p.Soil.RootDepth), fmt.Sprintf("%02d", len(p.Soil.Hor)), fmt.Sprintf("%02d", p.Soil.GW)
 		}
-		fmt.Fprintf(&b, "%s,%g,%s,%02d,%d,%02d,%g,00,%s,%s,%s,%s,%s,%s,%s,%s,%s,%s,%s", p.SoilID, h.Corg, h.Tex, h.Lower, h.BD, h.Stone, h.CN,
-			root, nh, fnum(h.FC), fnum(h.WP), fnum(h.PS), fnum(h.Sand), fnum(h.Silt), fnum(h.Clay), dd, df, gw)
+		r := []string{p.SoilID, fmt.Sprintf("%g", h.Corg), h.Tex, fmt.Sprintf("%02d", h.Lower), fmt.Sprintf("%d", h.BD), fmt.Sprintf("%02d", h.Stone), fmt.Sprintf("%g", h.CN), "00",
+			root, nh, fnum(h.FC), fnum(h.WP), fnum(h.PS), fnum(h.Sand), fnum(h.Silt), fnum(h.Clay), dd, df, gw}
 		if hasBulk {
 			if h.BulkDensity > 0 {
-				fmt.Fprintf(&b, ",%g", h.BulkDensity)
+				r = append(r, fmt.Sprintf("%g", h.BulkDensity))
 			} else {
-				b.WriteString(",")
+				r = append(r, "")
 			}
 		}
-		b.WriteString("\n")
+		rows = append(rows, r)
+	}
+	n := len(head)
+	perm := make([]int, n)
+	for i := range perm {
+		switch p.SoilCSVOrder {
+		case 1:
+			perm[i] = n - 1 - i
+		case 2:
+			perm[i] = (i + 7) % n
+		default:
+			perm[i] = i
+		}
+	}
+	var b strings.Builder
+	for _, r := range rows {
+		o := make([]string, n)
+		for i, src := range perm {
+			o[i] = r[src]
+		}
+		b.WriteString(strings.Join(o, ",") + "\n")
 	}
 	return b.String()
 }
